@@ -159,8 +159,68 @@ def same_option(P, name, arrived, wanted, axnames=("AX",)):
         return False
 
 
+def _sequence(ctx, P):
+    """R02.4: the options of one call do not outlive it - a later pad() on the same Grid that leaves an option out gets the
+    axis defaults, exactly as on a fresh Grid (two calls interpreted as one sequence on one modelled Grid)."""
+    from ..harness import driver
+    from ..xmodel import make_grid
+
+    padfi = P.func("padding:pad")
+    fi = driver("padding", "def _two_pads(data, grid, widths, b1, f1, b2, f2):\n    pad(data, grid, widths, b1, f1)\n    return pad(data, grid, widths, b2, f2)\n")
+    AX, AY = Sym("AX"), Sym("AY")
+    cases = [
+        ("partial mappings, then nothing", {AX: "fill"}, {AX: -3.0}, None, None),
+        ("total mappings, then nothing", {AX: "fill", AY: "periodic"}, {AX: -3.0, AY: 2.0}, None, None),
+        ("scalars, then nothing", "fill", -3.0, None, None),
+        ("partial mappings, then a scalar rule only", {AY: "fill"}, {AY: 9.0}, "fill", None),
+        ("partial mapping, then the other axis", {AX: "periodic"}, {AX: 4.0}, {AY: "fill"}, None),
+    ]
+    for name, b1, f1, b2, f2 in cases:
+        inst = f"two pad() calls on one Grid: {name}"
+
+        def run(first):
+            seen = []
+
+            def m_pad_basic(ev, args, kw, node):
+                b = dict(zip(["da", "grid", "padding_width", "padding", "fill_value"], args))
+                b.update(kw)
+                ev.events.append(("pad-basic", dict(b.get("padding") or {}), dict(b.get("fill_value") or {})))
+                d = b.get("da")
+                return d.with_eff(("PAD_BASIC",)) if isinstance(d, Obj) else TOP
+
+            ev = Evaluator(P, models={"padding:_pad_basic": m_pad_basic}, attr_models=da_attr_models(), method_models=da_method_models())
+            import copy
+
+            outs = ev.run_paths(fi, lambda: dict(data=make_da("da", [Sym("t"), dimsym("AX", "center"), dimsym("AY", "center")]), grid=make_grid(("AX", "AY"), boundary="extend", fill_value=0.5),
+                                                 widths={AX: (1, 1), AY: (1, 1)}, b1=copy.deepcopy(b1) if first else copy.deepcopy(b2), f1=copy.deepcopy(f1) if first else copy.deepcopy(f2),
+                                                 b2=copy.deepcopy(b2), f2=copy.deepcopy(f2)))
+            res = set()
+            for o in outs:
+                if o.kind != "return":
+                    return None
+                pb = [e for e in o.events if e[0] == "pad-basic"]
+                if len(pb) != 2:
+                    return None
+                res.add((tuple(sorted(pb[1][1].items(), key=repr)), tuple(sorted(pb[1][2].items(), key=repr))))
+            return res
+
+        try:
+            after, fresh = run(True), run(False)  # second call after the first one / after an identical call (= a fresh Grid's answer)
+        except Unmodelled as e:
+            ctx.unknown("R02.6", inst, str(e))
+            continue
+        if after is None or fresh is None or len(fresh) != 1:
+            ctx.unknown("R02.6", inst, "the sequence does not evaluate to two basic paddings on every path")
+        elif after != fresh:
+            a, f = sorted(after)[0], sorted(fresh)[0]
+            ctx.report("R02.6", padfi, inst, f"the second call is padded with rule {dict(a[0])!r} / fill {dict(a[1])!r}; on a Grid that has not seen the first call it is {dict(f[0])!r} / {dict(f[1])!r}: per-call options leak into the Grid's defaults")
+        else:
+            ctx.ok("R02.6", inst, "the second call is answered as on a fresh Grid")
+
+
 def check(ctx):
     P = ctx.project
+    _sequence(ctx, P)
     padfi = P.func("padding:pad")
     W = {Sym("AX"): (1, 0), Sym("AY"): (0, 2)}
 
@@ -207,6 +267,8 @@ def check(ctx):
         ("one lower", {Sym("AX"): (1, 0), Sym("AY"): (0, 0)}, True),
         ("one upper on second axis", {Sym("AX"): (0, 0), Sym("AY"): (0, 1)}, True),
         ("single axis upper", {Sym("AY"): (0, 3)}, True),
+        ("zero-width axis listed first", {Sym("AY"): (0, 0), Sym("AX"): (1, 2)}, True),
+        ("zero-width axis listed last", {Sym("AX"): (1, 2), Sym("AY"): (0, 0)}, True),
     ]
     for name, w, must_pad in cases:
         inst = f"widths {name}"
@@ -221,6 +283,9 @@ def check(ctx):
                 bad = f"raises {o.value}"
             elif must_pad and not calls:
                 bad = "non-zero widths requested but nothing is padded"
+            elif must_pad and any({k: tuple(v) for k, v in (c.get("padding_width") or {}).items() if tuple(v) != (0, 0)} != {k: tuple(v) for k, v in w.items() if tuple(v) != (0, 0)} for c in calls):
+                got = [c.get("padding_width") for c in calls][0]
+                bad = f"the widths reaching the padding are {got!r}; every axis with a non-zero pair in {w!r} must be padded by exactly that pair (wherever a zero-width axis stands in the mapping)"
             elif not must_pad and (calls or not (isinstance(o.value, Obj) and o.value.name == "da" and not [e for e in o.value.eff if e[0].startswith("PAD")])):
                 bad = "all widths are zero but the array is padded / not returned as given"
             elif isinstance(o.value, Obj):
